@@ -41,6 +41,9 @@ func specWordCode(b byte) bool {
 //@   loop @"for i < sourceLength#1" invariant[C11,C12,C13] index-within-normalised-source: 0 <= i && i <= len(strings.ReplaceAll(source, "\r\n", "\n"))
 //@   loop @"for i < sourceLength#1" invariant[C11,C12] no-blank-or-comment-token: forall(k, 0, len(tokens), tokens[k].tokenType != SPACE && tokens[k].tokenType != COMMENT && tokens[k].tokenType != UNKNOWN)
 //@   loop @"for i < sourceLength#1" invariant[C11] rows-start-at-one: row >= 1
+//@   loop @"for i < sourceLength#1" decreases[C13] every-round-consumes-input: len(src()) - i
+//@   loop @"for i < sourceLength#2" decreases[C13] every-round-of-the-string-scanner-consumes-input: len(src()) - i
+//@   loop @"for" decreases[C13] every-round-of-the-word-scanner-consumes-input: len(src()) - i
 //@   loop @"for i < sourceLength#1" invariant[C11] row-and-column-are-those-of-the-next-character: row == 1 + strings.Count(src()[:i], "\n") && column == i - strings.LastIndex(src()[:i], "\n")
 //@   callsite newToken requires[C11] a-token-carries-the-row-and-column-of-its-first-character: arg2 == 1 + strings.Count(src()[:ogI], "\n") && arg3 == ogI - strings.LastIndex(src()[:ogI], "\n")
 //@   ensures[C11] the-end-token-carries-the-position-after-the-last-character: err == nil ==> result0[len(result0) - 1].row == 1 + strings.Count(src(), "\n") && result0[len(result0) - 1].column == len(src()) - strings.LastIndex(src(), "\n")
@@ -48,6 +51,10 @@ func specWordCode(b byte) bool {
 //@   loop @"for i < sourceLength#1" invariant[C11] identifiers-are-not-reserved-words-and-symbols-are-what-they-spell: forall(k, 0, len(tokens), (tokens[k].tokenType == IDENTIFIER ==> specKeywordType(tokens[k].value) == UNKNOWN) && (specIsSymbolType(tokens[k].tokenType) ==> specSymbolType(tokens[k].value) == tokens[k].tokenType))
 //@   loop @"for i < sourceLength#2" invariant[C11,C13] index-within-normalised-source: 0 <= i && i <= len(strings.ReplaceAll(source, "\r\n", "\n"))
 //@   loop @"for i < sourceLength#2" invariant[C11,C13] the-scanner-only-moves-forward: ogI < i
+//@   loop @"for i < sourceLength#2" invariant[C08,C11] a-raw-string-is-copied-byte-for-byte: raw ==> str == src()[ogI+1:i]
+//@   loop @"for i < sourceLength#2" invariant[C08,C11] text-without-a-backslash-is-copied-byte-for-byte: !raw && !strings.Contains(src()[ogI+1:i], "\\") ==> str == src()[ogI+1:i]
+//@   callsite Unquote requires[C11] an-escape-is-handed-to-the-go-unquoter-as-a-quoted-literal: arg0 == "\"" + match + "\"" && hasPrefix(src()[i:], match) && hasPrefix(match, "\\")
+//@   callsite newToken requires[C08,C11] a-string-token-carries-the-scanned-content: arg1 == STRING_LITERAL ==> arg0 == str
 //@   loop @"for i < sourceLength#2" exit[C11] scanner-gives-up-only-at-end-of-input: i >= len(strings.ReplaceAll(source, "\r\n", "\n"))
 //@   loop @"for" invariant[C11,C13] index-within-normalised-source: 0 <= i && i <= len(strings.ReplaceAll(source, "\r\n", "\n"))
 //@   ensures[C11,C13] always-ends-with-eof: err == nil ==> len(result0) >= 1 && result0[len(result0) - 1].tokenType == EOF && result0[len(result0) - 1].value == ""
